@@ -160,11 +160,23 @@ Section Fuse.
   Qed.
 End Fuse.
 
-(* a NaN current (no result row for the switch) melts the fuse at once *)
-Lemma fuse_nan_trips i_start i_stop cv : fuse i_start i_stop cv None = {| tripped := true; ttime := TFin 0 |}.
+(* the fuse melts exactly when there is a current and it reaches the start value *)
+Lemma fuse_trip_iff_full i_start i_stop cv (i : F) :
+  tripped (fuse i_start i_stop cv i) = true <-> exists x, i = Some x /\ i_start <= x * 1000.
+Proof.
+  destruct i as [x|].
+  - rewrite (fuse_trip_iff i_start i_stop cv x). split.
+    + intros H. exists x. split; [reflexivity | exact H].
+    + intros (y & E & H). inversion E. subst. exact H.
+  - cbn. split; [discriminate | intros (y & E & _); discriminate].
+Qed.
+Lemma fuse_nan i_start i_stop cv : fuse i_start i_stop cv None = {| tripped := false; ttime := TInf |}.
 Proof. reflexivity. Qed.
-Lemma fuse_trip_iff_refuted :
-  exists i_start i_stop cv (i : F), tripped (fuse i_start i_stop cv i) = true /\
+(* before the repair a NaN current (no result row for the switch) melted the fuse at once *)
+Lemma fuse_old_nan_trips i_start i_stop cv : fuse_old i_start i_stop cv None = {| tripped := true; ttime := TFin 0 |}.
+Proof. reflexivity. Qed.
+Lemma fuse_trip_iff_old_refuted :
+  exists i_start i_stop cv (i : F), tripped (fuse_old i_start i_stop cv i) = true /\
     ~ (exists x, i = Some x /\ i_start <= x * 1000).
 Proof. exists 100, 1000, 1, None. split; [reflexivity|]. intros (x & E & _). discriminate. Qed.
 
